@@ -29,11 +29,86 @@ fn u<T: ToU64>(x: &T) -> V {
 fn i<T: ToI64>(x: &T) -> V {
     V::int(x.to_i64())
 }
-fn b<T: AsRef<[u8]> + ?Sized>(x: &T) -> V {
-    V::B(x.as_ref().to_vec())
+/// byte-string-like and text-like members, whether the subject holds them borrowed or owned
+pub trait BytesLike {
+    fn bytes(&self) -> &[u8];
 }
-fn t<T: AsRef<str> + ?Sized>(x: &T) -> V {
-    V::t(x.as_ref())
+impl BytesLike for [u8] {
+    fn bytes(&self) -> &[u8] {
+        self
+    }
+}
+impl BytesLike for serde_bytes::Bytes {
+    fn bytes(&self) -> &[u8] {
+        self
+    }
+}
+impl<const N: usize> BytesLike for serde_bytes::ByteArray<N> {
+    fn bytes(&self) -> &[u8] {
+        &self[..]
+    }
+}
+impl<const N: usize> BytesLike for ctap_types::Bytes<N> {
+    fn bytes(&self) -> &[u8] {
+        self
+    }
+}
+impl<const N: usize> BytesLike for [u8; N] {
+    fn bytes(&self) -> &[u8] {
+        self
+    }
+}
+impl<T: BytesLike + ?Sized> BytesLike for &T {
+    fn bytes(&self) -> &[u8] {
+        (**self).bytes()
+    }
+}
+pub trait TextLike {
+    fn text(&self) -> &str;
+}
+impl TextLike for str {
+    fn text(&self) -> &str {
+        self
+    }
+}
+impl<const N: usize> TextLike for ctap_types::String<N> {
+    fn text(&self) -> &str {
+        self.as_str()
+    }
+}
+impl<T: TextLike + ?Sized> TextLike for &T {
+    fn text(&self) -> &str {
+        (**self).text()
+    }
+}
+fn b<T: BytesLike + ?Sized>(x: &T) -> V {
+    V::B(x.bytes().to_vec())
+}
+fn t<T: TextLike + ?Sized>(x: &T) -> V {
+    V::t(x.text())
+}
+/// credential descriptors, borrowed (requests) or owned (responses)
+pub trait DescriptorLike {
+    fn view(&self) -> V;
+}
+impl DescriptorLike for PublicKeyCredentialDescriptorRef<'_> {
+    fn view(&self) -> V {
+        let mut m = MapB::new();
+        m.put("id", b(&self.id));
+        m.put("type", t(&self.key_type));
+        m.done()
+    }
+}
+impl DescriptorLike for PublicKeyCredentialDescriptor {
+    fn view(&self) -> V {
+        let mut m = MapB::new();
+        m.put("id", b(&self.id));
+        m.put("type", t(&self.key_type));
+        m.done()
+    }
+}
+fn desc<T: DescriptorLike>(x: &T) -> V {
+    x.view()
 }
 
 struct MapB(Vec<(V, V)>);
@@ -98,17 +173,11 @@ pub fn observe_user(x: &PublicKeyCredentialUserEntity) -> V {
 }
 
 pub fn observe_descriptor_ref(x: &PublicKeyCredentialDescriptorRef<'_>) -> V {
-    let mut m = MapB::new();
-    m.put("id", b(&**x.id));
-    m.put("type", t(x.key_type));
-    m.done()
+    x.view()
 }
 
 pub fn observe_descriptor(x: &PublicKeyCredentialDescriptor) -> V {
-    let mut m = MapB::new();
-    m.put("id", b(&x.id));
-    m.put("type", t(&x.key_type));
-    m.done()
+    x.view()
 }
 
 pub fn observe_param(x: &PublicKeyCredentialParameters) -> V {
@@ -177,7 +246,7 @@ pub fn observe_ga_ext(x: &get_assertion::ExtensionsInput) -> V {
 
 pub fn observe_mc(x: &make_credential::Request<'_>) -> V {
     let mut m = MapB::new();
-    m.put("clientDataHash", b(&**x.client_data_hash));
+    m.put("clientDataHash", b(&x.client_data_hash));
     m.put("rp", observe_rp(&x.rp));
     m.put("user", observe_user(&x.user));
     m.put("pubKeyCredParams", observe_params(&x.pub_key_cred_params));
@@ -185,11 +254,11 @@ pub fn observe_mc(x: &make_credential::Request<'_>) -> V {
         "excludeList",
         x.exclude_list
             .as_ref()
-            .map(|l| V::A(l.iter().map(observe_descriptor_ref).collect())),
+            .map(|l| V::A(l.iter().map(desc).collect())),
     );
     m.opt("extensions", x.extensions.as_ref().map(observe_mc_ext));
     m.opt("options", x.options.as_ref().map(observe_options));
-    m.opt("pinUvAuthParam", x.pin_auth.map(|p| b(&**p)));
+    m.opt("pinUvAuthParam", x.pin_auth.as_ref().map(b));
     m.opt("pinUvAuthProtocol", x.pin_protocol.as_ref().map(u));
     m.opt("enterpriseAttestation", x.enterprise_attestation.as_ref().map(u));
     m.opt(
@@ -201,17 +270,17 @@ pub fn observe_mc(x: &make_credential::Request<'_>) -> V {
 
 pub fn observe_ga(x: &get_assertion::Request<'_>) -> V {
     let mut m = MapB::new();
-    m.put("rpId", t(x.rp_id));
-    m.put("clientDataHash", b(&**x.client_data_hash));
+    m.put("rpId", t(&x.rp_id));
+    m.put("clientDataHash", b(&x.client_data_hash));
     m.opt(
         "allowList",
         x.allow_list
             .as_ref()
-            .map(|l| V::A(l.iter().map(observe_descriptor_ref).collect())),
+            .map(|l| V::A(l.iter().map(desc).collect())),
     );
     m.opt("extensions", x.extensions.as_ref().map(observe_ga_ext));
     m.opt("options", x.options.as_ref().map(observe_options));
-    m.opt("pinUvAuthParam", x.pin_auth.map(|p| b(&**p)));
+    m.opt("pinUvAuthParam", x.pin_auth.as_ref().map(b));
     m.opt("pinUvAuthProtocol", x.pin_protocol.as_ref().map(u));
     m.opt("enterpriseAttestation", x.enterprise_attestation.as_ref().map(u));
     m.opt(
@@ -226,18 +295,18 @@ pub fn observe_cp(x: &client_pin::Request<'_>) -> V {
     m.put("pinUvAuthProtocol", u(&x.pin_protocol));
     m.put("subCommand", V::U(x.sub_command.clone() as u64));
     m.opt("keyAgreement", x.key_agreement.as_ref().map(observe_ecdh));
-    m.opt("pinUvAuthParam", x.pin_auth.map(|p| b(&**p)));
-    m.opt("newPinEnc", x.new_pin_enc.map(|p| b(&**p)));
-    m.opt("pinHashEnc", x.pin_hash_enc.map(|p| b(&**p)));
+    m.opt("pinUvAuthParam", x.pin_auth.as_ref().map(b));
+    m.opt("newPinEnc", x.new_pin_enc.as_ref().map(b));
+    m.opt("pinHashEnc", x.pin_hash_enc.as_ref().map(b));
     m.opt("permissions", x.permissions.as_ref().map(u));
-    m.opt("rpId", x.rp_id.map(t));
+    m.opt("rpId", x.rp_id.as_ref().map(t));
     m.done()
 }
 
 pub fn observe_cm_params(p: &credential_management::SubcommandParameters<'_>) -> V {
     let mut m = MapB::new();
-    m.opt("rpIDHash", p.rp_id_hash.map(|h| b(&h[..])));
-    m.opt("credentialID", p.credential_id.as_ref().map(observe_descriptor_ref));
+    m.opt("rpIDHash", p.rp_id_hash.as_ref().map(b));
+    m.opt("credentialID", p.credential_id.as_ref().map(desc));
     m.opt("user", p.user.as_ref().map(observe_user));
     m.done()
 }
@@ -250,17 +319,17 @@ pub fn observe_cm(x: &credential_management::Request<'_>) -> V {
         x.sub_command_params.as_ref().map(observe_cm_params),
     );
     m.opt("pinUvAuthProtocol", x.pin_protocol.as_ref().map(u));
-    m.opt("pinUvAuthParam", x.pin_auth.map(|p| b(&**p)));
+    m.opt("pinUvAuthParam", x.pin_auth.as_ref().map(b));
     m.done()
 }
 
 pub fn observe_lb(x: &large_blobs::Request<'_>) -> V {
     let mut m = MapB::new();
     m.opt("get", x.get.as_ref().map(u));
-    m.opt("set", x.set.map(|p| b(&**p)));
+    m.opt("set", x.set.as_ref().map(b));
     m.put("offset", u(&x.offset));
     m.opt("length", x.length.as_ref().map(u));
-    m.opt("pinUvAuthParam", x.pin_uv_auth_param.map(|p| b(&**p)));
+    m.opt("pinUvAuthParam", x.pin_uv_auth_param.as_ref().map(b));
     m.opt("pinUvAuthProtocol", x.pin_uv_auth_protocol.as_ref().map(u));
     m.done()
 }
